@@ -84,8 +84,8 @@ pub open spec fn hdr32(code: u8, e: IsArrayElement, body_len: int, count: int) -
         r is Ok ==> final(writer).out@ == old(writer).out@ + (
             if !(*ext_is_array_elem is False) { hdr32(0xd0, *ext_is_array_elem, buf@.len() as int, num as int) }   // [C05.array.one-constructor-for-all-elements] [C03.rt.encoder-premise] an array has ONE element constructor: a list that is an array element is written in the 32-bit form whatever its own size (empty, short or long), so that every element body matches the constructor the first one wrote
             else if buf@.len() == 0 { seq![0x45u8] }                                                      // [C05.list.list0] [C03.rt.encoder-premise] the empty list is list0
-            else if buf@.len() <= 254 { hdr8(0xc0, *ext_is_array_elem, buf@.len() as int, num as int) }     // [C05.list.list8] [C03.rt.encoder-premise] list8: size = body + 1, count, both exact in 8 bits
-            else { hdr32(0xd0, *ext_is_array_elem, buf@.len() as int, num as int) }                         // [C05.list.list32] [C03.rt.encoder-premise] list32: big-endian size = body + 4, big-endian count
+            else if buf@.len() <= 254 { hdr8(0xc0, *ext_is_array_elem, buf@.len() as int, num as int) }     // [C05.list.list8] [C03.rt.encoder-premise] [C06.performative.list-header] list8: size = body + 1, count, both exact in 8 bits
+            else { hdr32(0xd0, *ext_is_array_elem, buf@.len() as int, num as int) }                         // [C05.list.list32] [C03.rt.encoder-premise] [C06.performative.list-header] list32: big-endian size = body + 4, big-endian count
         ) + buf@,
         r is Ok ==> buf@.len() <= 0xffff_fffb,                                                              // [C05.list.too-long] a body that does not fit the 32-bit size field is refused
         r is Ok && *ext_is_array_elem is False && 0 < buf@.len() <= 254 ==> num <= 255 && buf@.len() + 1 <= 255,                           // [C03.list.no-truncation] the 8-bit form is chosen only when size and count fit in 8 bits
@@ -103,8 +103,8 @@ pub open spec fn hdr32(code: u8, e: IsArrayElement, body_len: int, count: int) -
     ensures
         r is Ok ==> final(writer).out@ == old(writer).out@ + (
             if !(*ext_is_array_elem is False) { hdr32(0xd1, *ext_is_array_elem, buf@.len() as int, num as int) }   // [C05.array.one-constructor-for-all-elements] [C03.rt.encoder-premise]
-            else if buf@.len() <= 254 { hdr8(0xc1, *ext_is_array_elem, buf@.len() as int, num as int) }     // [C05.map.map8] [C03.rt.encoder-premise]
-            else { hdr32(0xd1, *ext_is_array_elem, buf@.len() as int, num as int) }                         // [C05.map.map32] [C03.rt.encoder-premise]
+            else if buf@.len() <= 254 { hdr8(0xc1, *ext_is_array_elem, buf@.len() as int, num as int) }     // [C05.map.map8] [C03.rt.encoder-premise] [C01.message.map-header]
+            else { hdr32(0xd1, *ext_is_array_elem, buf@.len() as int, num as int) }                         // [C05.map.map32] [C03.rt.encoder-premise] [C01.message.map-header]
         ) + buf@,
         r is Ok ==> buf@.len() <= 0xffff_fffb,
         r is Ok && *ext_is_array_elem is False && buf@.len() <= 254 ==> num <= 255,                                                        // [C03.map.no-truncation]
